@@ -48,7 +48,9 @@ KINDS = ["scan.steady_state", "scan.time_course", "scan.protocol", "scan.protoco
 
 def gen_cases(tier: str, seed: int) -> list[dict]:
     n = max(len(KINDS), int(N[tier] * float(os.environ.get("VERIF_SCALE", "1"))))
-    return [{"seed": f"{seed}:C09:{i}", "kind": KINDS[i % len(KINDS)]} for i in range(n)]
+    # every other steady-state case is one in which base initial values (y0) and an initial-value column of the table name
+    # the same variable, on a model whose steady state depends on that initial value
+    return [{"seed": f"{seed}:C09:{i}", "kind": KINDS[i % len(KINDS)], "overlap": "steady_state" in KINDS[i % len(KINDS)] and (i // len(KINDS)) % 2 == 0} for i in range(n)]
 
 
 def build_model(rng, p_ia: float = 0.5) -> tuple[dict, dict]:  # noqa: ANN001
@@ -188,10 +190,13 @@ def run_case(case: dict) -> dict:
     kind = case["kind"]
     # steady states of these networks depend on the start only through the assignment-defined parameter: the steady-state
     # kinds get it more often, so that base initial values (y0) and initial-value columns matter there
-    spec, info = build_model(rng, 0.8 if "steady_state" in kind else 0.5)
+    overlap = bool(case.get("overlap"))
+    spec, info = build_model(rng, 1.0 if overlap else 0.8 if "steady_state" in kind else 0.5)
     pristine = rm.build(spec)
     k = kind.split(".")[1]
     table, fail_rows = gen_table(rng, info, kind)
+    if overlap and "x0" not in table.columns:
+        table["x0"] = [round(rng.uniform(0.3, 2.5), 3) for _ in range(len(table))]
     extra: dict = {}
     pnames = info["params"]
     if k in ("time_course", "protocol_time_course"):
@@ -235,7 +240,11 @@ def run_case(case: dict) -> dict:
     if table.shape[1] == 0:
         table = pd.DataFrame({pnames[0]: [0.7, 1.3]})
         fail_rows = []
-    if rng.random() < (0.7 if "steady_state" in kind else 0.4):
+    if overlap:
+        extra["y0"] = {"x0": round(rng.uniform(0.3, 2.5), 3)}
+        if rng.random() < 0.5 and len(info["variables"]) > 1:
+            extra["y0"][info["variables"][-1]] = round(rng.uniform(0.3, 2.5), 3)
+    elif rng.random() < (0.7 if "steady_state" in kind else 0.4):
         # base initial values for the whole scan; where the table (or the outer Monte-Carlo table) has a column for the
         # same variable, the row's value is the one that counts
         tv = [c for c in table.columns if c in info["variables"]]
@@ -247,7 +256,7 @@ def run_case(case: dict) -> dict:
     modes += [{"parallel": True, "cores": c} for c in cores]
     viols: list[dict] = []
     counters: dict[str, int] = {f"kind:{kind}": 1, "rows": len(table), "failing_rows_planned": len(fail_rows),
-                                "with_y0": int("y0" in extra), "time_points_beyond_the_protocol": int("beyond_end" in locals()), "rows_failing_in_a_later_protocol_step": int("late_failures" in locals()), "duplicate_row_labels": int(not table.index.is_unique), "column_overrides_assignment_defined_parameter": int(info["ia"] and "k1" in table.columns), "y0_overlaps_table_column": int(any(v in table.columns for v in extra.get("y0", {})))}
+                                "with_y0": int("y0" in extra), "y0_and_a_table_column_name_the_same_variable": int(any(c in extra.get("y0", {}) for c in table.columns)), "time_points_beyond_the_protocol": int("beyond_end" in locals()), "rows_failing_in_a_later_protocol_step": int("late_failures" in locals()), "duplicate_row_labels": int(not table.index.is_unique), "column_overrides_assignment_defined_parameter": int(info["ia"] and "k1" in table.columns), "y0_overlaps_table_column": int(any(v in table.columns for v in extra.get("y0", {})))}
     ctx = {"kind": kind, "table": {"index": [str(i) for i in table.index], **{c: table[c].tolist() for c in table.columns}},
            "extra": {kk: (v.tolist() if hasattr(v, "tolist") else str(v)) for kk, v in extra.items()}, "ia_model": info["ia"], "spec": spec}
     # ---- oracle per row ------------------------------------------------------
